@@ -26,11 +26,13 @@ func init() {
 				js = append(js, Job{Dir: "smpp", Harness: "VH_C19_lemma", Params: map[string]int{"which": which, "whole": 1, "maxdays": md}, Solver: "cvc5", Timeout: 20 * time.Minute, Weight: 100})
 				if tier == "thorough" && (which == 0 || which == 1 || which == 6) {
 					// every nanosecond count below 31 days: Hours, Hours/24 and the range clauses of Hours (each decided by
-					// cvc5 in 20..90 s). The Minutes/Seconds clauses with a sub-second rest (which 2..5) were tried and are
-					// NOT registered: cvc5 answers unknown after 25 minutes per obligation, also below one day.
+					// cvc5 in 20..90 s). The Minutes/Seconds clauses with a sub-second rest are not decided below 31 days
+					// (unknown after 25 minutes per obligation); below one day see the next block.
 					js = append(js, Job{Dir: "smpp", Harness: "VH_C19_lemma", Params: map[string]int{"which": which, "whole": 0, "maxdays": 31}, Solver: "cvc5", Timeout: 40 * time.Minute, Weight: 200})
 				}
-				if tier == "thorough" && (which == 2 || which == 3 || which == 4 || which == 5) && os.Getenv("VERIF_C19_TRY") != "" {
+				if tier == "thorough" && (which == 2 || which == 3 || which == 5 || (which == 4 && os.Getenv("VERIF_C19_TRY") != "")) {
+					// Minutes / Seconds with a sub-second rest, below one day: 1 to 15 minutes of cvc5 each. The range clauses
+					// of Seconds (which 4) did not finish and are not registered.
 					js = append(js, Job{Dir: "smpp", Harness: "VH_C19_lemma", Params: map[string]int{"which": which, "whole": 0, "maxdays": 1}, Solver: "cvc5", Timeout: 40 * time.Minute, Weight: 200})
 				}
 			}
@@ -39,7 +41,7 @@ func init() {
 		Functions: []string{"smpp.ToValidatePeriod, timeToSMPPTimeFormatRelative, timeToSMPPTimeFormatAbsolute", "time.Duration.Hours/Minutes/Seconds: real SSA with float64 in the SMT floating-point theory (RNE arithmetic, RTZ conversion) in the lemma jobs, decided by cvc5; in the formatter jobs replaced by the integer contract those lemmas prove (contract_proved_by: VH_C19_lemma)"},
 		Stubs:     []string{"time.ParseDuration: returns the symbolic duration `dur` or an error (symbolic flag)", "time.Time: abstract instant (integer nanoseconds); Add/Before exact; calendar fields arbitrary within range per instant; Format(layout) renders those fields", "fmt.Sprintf %02d: digit variables"},
 		Bounds: map[string]string{
-			"duration": "ToValidatePeriod (relative) and formatter jobs: every nanosecond count 0..2^32 s (136 years; whole=1 jobs: whole seconds, whole=0 jobs: dursecs*1e9 + durfrac mod 1e9) and every negative one, under the float contract; absolute form: every nanosecond count of that range. Contract = int(d.Hours())==d/Hour, int(d.Hours()/24)==d/24h, int(d.Minutes())==d/Minute, int(d.Seconds())==d/Second, and for each accessor q <= f < q+1 and (f >= q+0.5 <=> remainder >= half a unit): proved on the real time SSA (FP theory, cvc5) for whole-second durations below 31 days (Hours, Hours/24, Hours range) and below 1 day (Minutes, Seconds and their range clauses); thorough adds every nanosecond count below 31 days for the three Hours clauses. For durations with a sub-second rest the Minutes/Seconds clauses are assumed, not proved (cvc5: unknown after 25 min); beyond the proved range only counterexamples are trusted (each is replayed natively)",
+			"duration": "ToValidatePeriod (relative) and formatter jobs: every nanosecond count 0..2^32 s (136 years; whole=1 jobs: whole seconds, whole=0 jobs: dursecs*1e9 + durfrac mod 1e9) and every negative one, under the float contract; absolute form: every nanosecond count of that range. Contract = int(d.Hours())==d/Hour, int(d.Hours()/24)==d/24h, int(d.Minutes())==d/Minute, int(d.Seconds())==d/Second, and for each accessor q <= f < q+1 and (f >= q+0.5 <=> remainder >= half a unit): proved on the real time SSA (FP theory, cvc5) for whole-second durations below 31 days (Hours, Hours/24, Hours range) and below 1 day (Minutes, Seconds and their range clauses); thorough adds every nanosecond count below 31 days for the three Hours clauses and below 1 day for int(Minutes), int(Seconds) and the Minutes range clauses. The Seconds range clauses (q <= f < q+1, half) with a sub-second rest are assumed, not proved (cvc5: unknown); beyond the proved range only counterexamples are trusted (each is replayed natively)",
 			"instant":  "arbitrary",
 		},
 		Outside: []string{"time.Format / ParseDuration themselves", "time zones (UTC only, as the statement)"},
